@@ -1,6 +1,8 @@
 package evaluator
 
 import (
+	"sort"
+
 	"github.com/Syuparn/pangaea/ast"
 	"github.com/Syuparn/pangaea/object"
 )
@@ -11,7 +13,10 @@ func evalKwargs(
 ) (*object.PanObj, *object.PanErr) {
 	pairMap := map[object.SymHash]object.Pair{}
 
-	for k, v := range kwargs {
+	// NOTE: evaluate in the order written in the source code
+	// (otherwise order of side effects and duplicated kwargs changes randomly)
+	for _, k := range sortedKwargIdents(kwargs) {
+		v := kwargs[k]
 		val := Eval(v, env)
 
 		if err, ok := val.(*object.PanErr); ok {
@@ -31,4 +36,32 @@ func evalKwargs(
 	obj, _ := (object.PanObjInstancePtr(&pairMap)).(*object.PanObj)
 
 	return obj, nil
+}
+
+func sortedKwargIdents(kwargs map[*ast.Ident]ast.Expr) []*ast.Ident {
+	idents := make([]*ast.Ident, 0, len(kwargs))
+	for k := range kwargs {
+		idents = append(idents, k)
+	}
+
+	pos := func(i *ast.Ident) (int, int) {
+		if i.Src == nil {
+			return 0, 0
+		}
+		return i.Src.Pos.Line, i.Src.Pos.Column
+	}
+
+	sort.Slice(idents, func(i, j int) bool {
+		li, ci := pos(idents[i])
+		lj, cj := pos(idents[j])
+		if li != lj {
+			return li < lj
+		}
+		if ci != cj {
+			return ci < cj
+		}
+		return idents[i].Value < idents[j].Value
+	})
+
+	return idents
 }
